@@ -52,6 +52,8 @@ def rule_g1(F, get_function=GET_FUNCTION, typed_func=TYPED_FUNC,
             ok = False
             for g in gs:
                 names = [c[1] for c in g["chain"]] + [mir.origin_key(b, defs, g["place"])]
+                for c in g["chain"]:
+                    names += sorted(mir.ok_implies(F, c[1]))   # a checking helper: its success implies the success of what it checks
                 if not any(need in n for n in names):
                     continue
                 found = True
